@@ -151,6 +151,16 @@ func judgeSpine(t *Term, isSource func(*Term) bool, rep *lossyReport, seen map[*
 		for _, a := range t.Args {
 			judgeSpine(a, isSource, rep, seen)
 		}
+	case t.Op == "extract" && len(t.Args) == 1 && t.Args[0].Op == "call":
+		// the first result of a decoding call
+		judgeSpine(t.Args[0], isSource, rep, seen)
+	case t.isCall("strconv.Unquote") || t.isCall("strconv.UnquoteChar") || t.isCall("html.UnescapeString") || t.isCall("net/url.QueryUnescape") || t.isCall("net/url.PathUnescape"):
+		// a decoder: the payload is plain text, not a quoted or escaped form of one; backslashes, '&', '%'
+		// in it are rewritten (or the call fails and a fallback takes over)
+		rep.lossy = append(rep.lossy, t.Name+" interprets escape sequences in the value: a backslash (lacZ\\alpha, C:\\temp) or an entity in the text of the file comes back as another character")
+		if len(t.Args) > 0 {
+			judgeSpine(t.Args[0], isSource, rep, seen)
+		}
 	case t.Op == "call":
 		rep.unknown = append(rep.unknown, "unclassified operation "+t.Name+" on the verbatim value")
 	default:
